@@ -21,7 +21,7 @@ META = {"text": "TLC explores each program exhaustively without any reduction (r
 
 def run(ctx):
     quick = ctx.quick
-    progs = M.programs(ctx, 10 if quick else 40, 3, 4)
+    progs = M.programs(ctx, 10 if quick else 24, 3, 4)
     for p in progs:
         ctx.count(p, nontrivial=K.shared_objects(p))
     for p in progs[:1] + progs[-2:]:
@@ -35,7 +35,7 @@ def run(ctx):
     ctx.cov["explorers"] = [c[0] for c in configs]
     nexec = 0
     for cname, cfg in configs:
-        for full in (False, True):
+        for full in ((False, True) if cname == "dfs" else (True,)):     # the other explorers: coverage pass only
             # first pass: stop at the first error (verdict); second pass: keep exploring after errors (coverage)
             extra = cfg + (["--cfg=model-check/max-errors:-1"] if full else [])
             sel = [i for i in range(len(progs)) if (any(o["end"] == "deadlock" for o in ref[i]) or not full)]
